@@ -37,6 +37,13 @@ Run with `lake env lean --run DriverC09.lean < cases.jsonl`.
   (b) the differential run against the real `LanczosUnary` / `ArnoldiUnary` (tolerance 1e-5).  So the `krylov-exact` stream
   checks the real code against `p(A)` through an independent exact Krylov computation; it does not execute the model of
   the Lanczos theorems.
+  Round 5 (what IS proved now, `Properties/C09/Arnoldi.lean`): on the theorem side both models return `p(A) v` for a
+  polynomial `f = p` — `C09_lanczos_model_poly` (`lanczosUnaryVec`, Hermitian diagonalisable `A`, exhausted run, `EighContract`)
+  and `C09_arnoldi_model_poly` (`arnoldiUnaryVec`, defined from C15's `Arnoldi.run`; clauses `noClip` / `stopExact`, diagonalisable
+  Hessenberg block, `EigContract`, `tol > 0`).  The driver's value is compared EXACTLY with the exact `p(A) X` (`code == spec`
+  of the stream `krylov-exact`).  So on the inputs of that stream that satisfy the theorems' hypotheses the driver's model
+  and the theorem-side models agree (both are `p(A) v`); still no theorem is ABOUT `KrylovExact.applyPoly` itself, and the
+  driver does not check `noClip` / exhaustion of the normalised loop models (for Arnoldi they depend on `tol`).
 * The two run-level clauses are decided for ROOT nodes only: `krylov-zero-column` when the plan's root is a Kronecker
   product whose members are matched with the members of the operator's core (a Krylov member nested deeper — inside a
   BlockDiag member of the Kronecker product, under a Transpose — is walked by `UnOp.zeroFibreClause` only as far as that
